@@ -29,6 +29,7 @@ class G:
         self.loopvars = []
         self.lists = draw(st.booleans())      # tracked list variable _.l (flat, 3) and _.m (nested, 2x2)
         self.counter = 0
+        self.shared = []        # (loop id, max) of _range objects kept in a variable and still in scope
         self.budget = draw(st.integers(3, 12))
 
     def expr(self, depth=0):
@@ -70,12 +71,14 @@ class G:
     def block(self, depth):
         n = self.draw(st.integers(1, 3))
         out = []
+        scope = len(self.shared)
         for _ in range(n):
             if self.budget <= 0:
                 break
             out.append(self.stmt(depth))
         if not out:
             out.append(["set", 0, self.expr()])
+        del self.shared[scope:]        # range variables defined in this block are out of scope after it
         return out
 
     def stmt(self, depth):
@@ -105,13 +108,25 @@ class G:
             return ["while", c, m, body, brk, pos, cid]
         lv = "i%d" % self.counter
         fid = self.counter
-        m = d(st.integers(0, 3))
+        opts = {}
+        if self.shared and d(st.integers(0, 1)) == 0:
+            # iterate again over a range object an enclosing or earlier loop also uses (r = range(n); for i in r: for j in r:)
+            ref, m = d(st.sampled_from(self.shared))
+            opts["reuse"] = ref
+        else:
+            m = d(st.integers(0, 3))
+            if d(st.integers(0, 3)) == 0:
+                opts["start"] = d(st.integers(1, 2))       # _range(start, stop, max=...)
+                m = max(m, opts["start"])
+            if d(st.integers(0, 2)) == 0:
+                opts["share"] = True
+                self.shared.append((fid, m))
         self.loopvars.append(lv)
         body = self.block(depth + 1)
         brk = self.cond() if d(st.integers(0, 3)) == 0 else None
         pos = d(st.integers(0, len(body)))
         self.loopvars.remove(lv)
-        return ["for", None, m, lv, body, d(st.booleans()), brk, pos, fid]
+        return ["for", opts or None, m, lv, body, d(st.booleans()), brk, pos, fid]
 
 
 def draw_case(draw):
@@ -132,8 +147,10 @@ def draw_case(draw):
     def fill(stmts):
         for s in stmts:
             if s[0] == "for":
-                va["stops"][str(s[8])] = draw(st.integers(0, s[2]))
-                vb["stops"][str(s[8])] = draw(st.integers(0, s[2]))
+                if not (s[1] or {}).get("reuse"):
+                    lo = (s[1] or {}).get("start", 0)          # stop >= start: the precondition of _range(start, stop)
+                    va["stops"][str(s[8])] = draw(st.integers(lo, s[2]))
+                    vb["stops"][str(s[8])] = draw(st.integers(lo, s[2]))
                 fill(s[4])
             elif s[0] == "while":
                 fill(s[3])
@@ -273,11 +290,19 @@ def _render(case, obl):
             if obl:
                 emit(ind, "_endwhile()")
         elif t == "for":
-            _, _, m, lv, body, chk, brk, pos, cid = s
+            _, opts, m, lv, body, chk, brk, pos, cid = s
+            opts = opts or {}
+            start = "%d, " % opts["start"] if "start" in opts else ""
             if obl:
-                emit(ind, "for %s in _range(s%d, max=%d%s):" % (lv, cid, m, ", checkstopmax=True" if chk else ""))
+                rng = "_range(%ss%d, max=%d%s)" % (start, cid, m, ", checkstopmax=True" if chk else "")
             else:
-                emit(ind, "for %s in range(s%d):" % (lv, cid))
+                rng = "range(%ss%d)" % (start, cid)
+            if "reuse" in opts:
+                rng = "r%d" % opts["reuse"]
+            elif opts.get("share"):
+                emit(ind, "r%d = %s" % (cid, rng))
+                rng = "r%d" % cid
+            emit(ind, "for %s in %s:" % (lv, rng))
             block(body[:pos], ind + 1)
             if brk is not None:
                 if obl:
@@ -440,6 +465,8 @@ def kinds_in(case):
                     out.add("breakif")
                 walk(s[3], depth + 1)
             elif s[0] == "for":
+                for k_ in (s[1] or {}):
+                    out.add("range:" + k_)
                 if s[5]:
                     out.add("checkstopmax")
                 if s[6] is not None:
